@@ -107,9 +107,12 @@ def enumerate_hierarchies(tier: str):
             yield h, "extras"
 
 
-def render(h: tuple[Cls, ...], u: str, split: bool) -> dict[str, str]:
-    """Module(s) for hierarchy h.  split: private classes live in a second module and are imported."""
+def render(h: tuple[Cls, ...], u: str, split: bool | str) -> dict[str, str]:
+    """Module(s) for hierarchy h.  split=True: private classes live in a second module and are imported.
+    split="same": one module, but the private classes carry the SAME names (_Kx<i>) in every hierarchy of the run."""
     def cname(i: int) -> str:
+        if split == "same" and h[i].private:
+            return f"_Kx{i}"
         return ("_" if h[i].private else "") + f"K{u}x{i}"
 
     main, priv = [], []
@@ -129,8 +132,8 @@ def render(h: tuple[Cls, ...], u: str, split: bool) -> dict[str, str]:
         if "nested" in c.extras:
             body.append(f"    class Nest{u}x{i}:\n        def nm{u}(self) -> int:\n            ...\n")
         text = f"class {cname(i)}{bases}:\n" + ("\n".join(body) if body else "    pass\n")
-        (priv if (split and c.private) else main).append((i, text))
-    if not split:
+        (priv if (split is True and c.private) else main).append((i, text))
+    if split is not True:
         return {f"h{u}.py": "\n\n".join(t for _, t in main) + "\n"}
     # with split, private classes must not depend on public classes of the main module (import cycle): caller guarantees
     imports = "".join(f"from {PKG}._hb{u} import {cname(i)}\n" for i, _ in priv)
@@ -211,9 +214,13 @@ def run(rep: Report, tier: str, seed: int) -> None:
         if family in ("full", "extras") and len(h) <= 3 and not any(c.private and any(not h[b].private for b in c.bases) for c in h) and any(c.private for c in h):
             u2 = f"{next(uid):06d}"
             units.append((u2, h, family + ":split", True))
+        # equally named private classes in different modules (names are the only thing the modules share)
+        if family in ("full", "extras") and len(h) <= 3:
+            u3 = f"{next(uid):06d}"
+            units.append((u3, h, family + ":same", "same"))
     rep.rule = (
         f"all class hierarchies of <= {3 if tier == 'quick' else 4} classes (each public/private, ordered base lists of size <= 2 over earlier classes, method subsets of {{m1,m2}} with a distinct return type per definer) that have a consistent MRO and a public class with a private base;"
-        " 4-5 class chains, forks, diamonds, ladders under all privacy assignments x 3 method placements; private bases with private method / property / static / class method / nested class; private bases in a second module; one hierarchy per module; distinct = distinct hierarchy"
+        " 4-5 class chains, forks, diamonds, ladders under all privacy assignments x 3 method placements; private bases with private method / property / static / class method / nested class; private bases in a second module; private bases that carry the same class names in every module; one hierarchy per module; distinct = distinct hierarchy"
     )
 
     def label(h, family) -> str:
@@ -244,7 +251,7 @@ def run(rep: Report, tier: str, seed: int) -> None:
                     rep.extra["class_not_found(C03)"] = rep.extra.get("class_not_found(C03)", 0) + 1
                     continue
                 path, _, d = hits[0]
-                sig0 = shape_sig(h, ci) + ("|split" if split else "")
+                sig0 = shape_sig(h, ci) + ("|split" if split is True else ("|same-names" if split == "same" else ""))
 
                 def viol(clause, feat, detail, sig0=sig0, lb=lb, mini=mini, d=d) -> None:
                     rep.violation(clause, f"{clause}:{feat}|{sig0}", {"hierarchy": lb, "class": d.py_name, "members": [(m.kind, m.py_name, [r.type.render() for r in (m.results or []) if r.type]) for m in d.members], "sub": [p.render() for p in d.parents], **detail}, files=mini, src_rel=PKG, opts=opts)
@@ -295,7 +302,10 @@ def run(rep: Report, tier: str, seed: int) -> None:
                 # except split units, where public classes import private ones only -> nothing to import in the stub
 
     stats: dict[str, int] = {}
-    groups = [(units[i : i + 500], Opts()) for i in range(0, len(units), 500)]
+    plain = [x for x in units if x[3] != "same"]
+    same = [x for x in units if x[3] == "same"]
+    # equally named private classes make the analyser's name-keyed tables grow with the number of modules: small runs
+    groups = [(plain[i : i + 500], Opts()) for i in range(0, len(plain), 500)] + [(same[i : i + 12], Opts()) for i in range(0, len(same), 12)]
     run_packed(groups, build, on_group, stats)
     rep.extra.update(stats)
     rep.extra["hierarchies"] = len(units)
